@@ -375,14 +375,17 @@ Definition st_oracle (pol : policy) (ops obs : list (list Z)) : bool :=
    Interleaving model of reusable_storage_mtsafe: any number of threads, each running a program of
    creations / completions of its own coroutines on ONE shared storage.  One model step = the code between
    two hook points:  busy_x (40) just before `_busy.exchange` (:160);  busy_g (42) in the winner's branch just
-   before reusable_storage::alloc touches _ptr/_capacity (:164);  busy_s (41) at the top of dealloc (:172). *)
+   before reusable_storage::alloc touches _ptr/_capacity (:164);  busy_n (43) inside reusable_storage::alloc between
+   `::operator delete(_ptr)` (:50) and `_ptr = ::operator new(sz)` (:51), where _ptr dangles;  busy_s (41) at the top of
+   dealloc (:172). *)
 Inductive act := ACreate (sz : Z) | AFin (newest : bool).
 Record thread := mkTh {
   t_prog : list act;
   t_won : option Z;        (* Some sz: won the exchange, pending at busy_g *)
   t_own : list nat;        (* slots of its live frames, oldest first *)
   t_done : nat;            (* actions completed *)
-  t_res : list (list Z)    (* one result line per completed action *)
+  t_res : list (list Z);   (* one result line per completed action *)
+  t_grow : option Z        (* Some k: holder paused at busy_n, inside reusable_storage::alloc between :50 and :51 (k frees done) *)
 }.
 Record cst := mkC { c_core : core; c_thr : list thread }.
 
@@ -394,8 +397,8 @@ Definition pick (nw : bool) (l : list nat) : option (nat * list nat) :=
 Definition with_busy (c : core) (b : bool) : core :=
   mkCore (hp c) (set_busy (st c) b) (frs c) (c_nfid c) (c_max c) (c_up c) (c_log c).
 
-Definition cres (i : nat) (t : thread) (c c1 : core) (f : frame) : list Z :=
-  [Z.of_nat i; Z.of_nat (t_done t); 1; h_allocs (hp c1) - h_allocs (hp c); h_frees (hp c1) - h_frees (hp c);
+Definition cres (i : nat) (t : thread) (c c1 : core) (f : frame) (xfr : Z) : list Z :=
+  [Z.of_nat i; Z.of_nat (t_done t); 1; h_allocs (hp c1) - h_allocs (hp c); h_frees (hp c1) - h_frees (hp c) + xfr;
    b2z (is_fresh (hp c) (f_blk f)); f_room f; overlaps (f_blk f) (frs c)].
 Definition fres (i : nat) (t : thread) (c c1 : core) (f : frame) : list Z :=
   [Z.of_nat i; Z.of_nat (t_done t); 2; h_allocs (hp c1) - h_allocs (hp c); h_frees (hp c1) - h_frees (hp c);
@@ -411,8 +414,21 @@ Definition tstep (s : cst) (i : nat) : cst * Z :=
       match t_won t with
       | Some sz =>
           let slot := c_nfid c in
-          let '(c1, f) := mk_frame pm c slot sz (mts_won (hp c) (st c) sz) in
-          (upd s c1 i (mkTh (t_prog t) None (t_own t ++ [slot]) (S (t_done t)) (t_res t ++ [cres i t c c1 f])), 42)
+          match t_grow t with
+          | None =>                                   (* busy_g: reusable_storage::alloc(sz + 8), :49 *)
+              if sz + ptr_sz >? s_cap (st c) then     (* :50 delete the old block; _ptr keeps its value until :51 *)
+                let c1 := mkCore (hdel_opt (hp c) (s_ptr (st c))) (st c) (frs c) (c_nfid c) (c_max c) (c_up c) (c_log c) in
+                (upd s c1 i (mkTh (t_prog t) (Some sz) (t_own t) (t_done t) (t_res t)
+                                  (Some (h_frees (hp c1) - h_frees (hp c)))), 42)
+              else
+                let '(c1, f) := mk_frame pm c slot sz (mts_won (hp c) (st c) sz) in
+                (upd s c1 i (mkTh (t_prog t) None (t_own t ++ [slot]) (S (t_done t)) (t_res t ++ [cres i t c c1 f 0]) None), 42)
+          | Some fr =>                                (* busy_n: :51-52, then the trailer :167-168 *)
+              let '(h1, id) := hnew (hp c) (sz + ptr_sz) in
+              let s1 := mkSto (Some id) (sz + ptr_sz) (s_busy (st c)) (s_state (st c)) (s_bsize (st c)) (s_bcap (st c)) (s_ownc (st c)) in
+              let '(c1, f) := mk_frame pm c slot sz (h1, s1, mkGr (BHeap id) (sz + ptr_sz) (sz + ptr_sz) true) in
+              (upd s c1 i (mkTh (t_prog t) None (t_own t ++ [slot]) (S (t_done t)) (t_res t ++ [cres i t c c1 f fr]) None), 43)
+          end
       | None =>
           match t_prog t with
           | [] => (s, 0)
@@ -420,11 +436,11 @@ Definition tstep (s : cst) (i : nat) : cst * Z :=
               if s_busy (st c) then
                 let slot := c_nfid c in
                 let '(c1, f) := mk_frame pm c slot sz (mts_lost (hp c) (st c) sz) in
-                (upd s c1 i (mkTh r None (t_own t ++ [slot]) (S (t_done t)) (t_res t ++ [cres i t c c1 f])), 40)
-              else (upd s (with_busy c true) i (mkTh r (Some sz) (t_own t) (t_done t) (t_res t)), 40)
+                (upd s c1 i (mkTh r None (t_own t ++ [slot]) (S (t_done t)) (t_res t ++ [cres i t c c1 f 0]) None), 40)
+              else (upd s (with_busy c true) i (mkTh r (Some sz) (t_own t) (t_done t) (t_res t) None), 40)
           | AFin nw :: r =>
               let skip := (upd s c i (mkTh r None (t_own t) (S (t_done t))
-                                       (t_res t ++ [[Z.of_nat i; Z.of_nat (t_done t); 0]])), 41) in
+                                       (t_res t ++ [[Z.of_nat i; Z.of_nat (t_done t); 0]]) None), 41) in
               match pick nw (t_own t) with
               | None => skip
               | Some (slot, rest) =>
@@ -432,7 +448,7 @@ Definition tstep (s : cst) (i : nat) : cst * Z :=
                   | None => skip
                   | Some f =>
                       let c1 := finish pm c slot f in
-                      (upd s c1 i (mkTh r None rest (S (t_done t)) (t_res t ++ [fres i t c c1 f])), 41)
+                      (upd s c1 i (mkTh r None rest (S (t_done t)) (t_res t ++ [fres i t c c1 f]) None), 41)
                   end
               end
           end
@@ -476,7 +492,7 @@ Fixpoint decode_prog (l : list Z) : list act :=
   | _ => []
   end.
 Definition decode_thread (l : list Z) : list thread :=
-  match l with 2 :: r => [mkTh (sanitize 0 (decode_prog r)) None [] 0 []] | _ => [] end.
+  match l with 2 :: r => [mkTh (sanitize 0 (decode_prog r)) None [] 0 [] None] | _ => [] end.
 Definition decode_sched (l : list Z) : list Z := match l with 9 :: r => r | _ => [] end.
 
 Definition cinit (ops : list (list Z)) : cst := mkC (init_core pm) (flat_map decode_thread ops).
@@ -485,7 +501,7 @@ Fixpoint sumlen (l : list thread) : nat :=
 
 Definition mt_final (ops : list (list Z)) : cst * list (nat * Z) :=
   let s0 := cinit ops in
-  run_sched (2 * sumlen (c_thr s0) + 2) s0 (flat_map decode_sched ops) [].
+  run_sched (3 * sumlen (c_thr s0) + 2) s0 (flat_map decode_sched ops) [].
 
 Definition mt_run (ops : list (list Z)) : list (list Z) :=
   let '(s, tr) := mt_final ops in
